@@ -1274,6 +1274,7 @@ static bool evalRoute(const Route& rt, const Node& n, const Node& pn, int p, con
 // routes listed by the caller (operation|storage|route) are evaluated in a forked process: they are known
 // to write outside their buffers, which would otherwise corrupt the heap of the replay
 static std::set<std::string> ISOLATE;
+static std::set<std::string> NOINFLATE;   // routes of recorded findings: wrong anyway, not worth inflating (and unsafe)
 static bool g_isolated = false;
 
 // returns 0 agreed, 1 disagreed (reported), 2 died (reported as crash)
@@ -1420,6 +1421,7 @@ static void inflate(int nodeIdx, const Node& n, const Node& pn, int p, const std
     {
       if (!okRoutes[k]) continue;   // a route that is wrong on the small case is not inflated
       if (ISOLATE.count(o.op + "|" + PROFNAME[p] + "|" + routes[k].name)) continue;   // nor a route known to overrun
+      if (NOINFLATE.count(o.op + "|" + PROFNAME[p] + "|" + routes[k].name)) continue;
       if (!enter(nodeIdx, p, (int)k, 1, kind, o.op + "/" + routes[k].name)) continue;
       Regs* g = pre.clone();
       Outcome out;
@@ -1667,6 +1669,12 @@ int main(int argc, char** argv)
       std::ifstream f(opts["isolate"]);
       std::string line;
       while (std::getline(f, line)) if (!line.empty()) ISOLATE.insert(line);
+    }
+    if (opts.count("noinflate"))
+    {
+      std::ifstream f(opts["noinflate"]);
+      std::string line;
+      while (std::getline(f, line)) if (!line.empty()) NOINFLATE.insert(line);
     }
     setupLibrary(threads);
     loadBehaviours(argv[2]);
